@@ -97,6 +97,12 @@ def kenc(k):
     if _KT == "name":
         import dns.name
         return dns.name.empty if k == 0 else dns.name.Name([b"%06d" % k])
+    if _KT == "bytes":
+        return b"" if k == 0 else b"%06d" % k
+    if _KT == "tuple":
+        return () if k == 0 else (k,)
+    if _KT == "float":
+        return float(k)
     return k
 
 
@@ -105,7 +111,32 @@ def kdec(o):
         return 0 if o == "" else int(o)
     if _KT == "name":
         return 0 if len(o.labels) == 0 else int(o.labels[0])
+    if _KT == "bytes":
+        return 0 if o == b"" else int(o)
+    if _KT == "tuple":
+        return 0 if o == () else o[0]
+    if _KT == "float":
+        return int(o)
     return o
+
+
+class FalsyKV(btree.KV):
+    """an Element whose truth value is False (a subclass is free to define __bool__/__len__): the tree must test
+    `is None`, never truthiness"""
+
+    def __bool__(self):
+        return False
+
+    def __len__(self):
+        return 0
+
+
+class FalsyMember(btree.Member):
+    def __bool__(self):
+        return False
+
+    def __len__(self):
+        return 0
 
 
 def venc(v):
@@ -189,6 +220,8 @@ def check_invariants(tr):
                     keys.append(kdec(n.elts[i].key()))
 
     walk(tr.root, 0, True)
+    if not tr.root.is_leaf and len(tr.root.elts) == 0:
+        bad.append(("root-empty", f"the root is an internal node without elements ({len(tr.root.children)} children)"))
     if len(leaf_depths) > 1:
         bad.append(("leaf-depth", f"leaves at depths {sorted(leaf_depths)}"))
     if any(not (a < b) for a, b in zip(keys, keys[1:])):
@@ -312,7 +345,7 @@ class Runner:
         if len(self.fails) < 20:
             self.fails.append((sig, what, at))
 
-    def new_tree(self, original=None, io=False, via_copy=False):
+    def new_tree(self, original=None, io=False, via_copy=False, odd_t=False):
         cls = btree.BTreeSet if self.is_set else btree.BTreeDict
         if original is None:
             if self.case.get("defaults"):
@@ -323,16 +356,22 @@ class Runner:
             return cls(t=self.t, in_order=io)
         if via_copy and not io:
             return copy.copy(original)
+        if odd_t:
+            c = cls(t=self.t + 2, original=original, in_order=io)  # `t` is ignored when cloning: the clone keeps its original's t
+            if c.t != original.t:
+                self.fail("C19/clone/t", f"a clone made with t={self.t + 2} has t={c.t}, its original {original.t}", 0)
+            return c
         return cls(original=original, in_order=io)
 
     def make_elt(self, k, v):
         e = self.objs.get((k, v))
         if e is None:
+            falsy = self.case.get("falsy_elts")
             if self.is_set:
-                e = btree.Member(kenc(k))
+                e = (FalsyMember if falsy else btree.Member)(kenc(k))
                 e._value = v  # tag only; Member has no value of its own (printed as the value id)
             else:
-                e = btree.KV(kenc(k), venc(v))
+                e = (FalsyKV if falsy else btree.KV)(kenc(k), venc(v))
             self.objs[(k, v)] = e
         return e
 
@@ -452,9 +491,11 @@ class Runner:
                 if op == "I":
                     v = a[2]
                     if self.is_set and v == 0:
-                        e = btree.Member(kenc(k))  # an untagged member, as `add` makes them
+                        e = (FalsyMember if self.case.get("falsy_elts") else btree.Member)(kenc(k))  # an untagged member, as `add` makes them
                     else:
                         e = self.make_elt(k, v)
+                    if self.case.get("falsy_elts") and sel == 0:
+                        sel = 2  # d[k]=v / add() would make plain elements
                     exp_old = ref.get(k)
                     opt_before = BRANCH.get("branch.optimize_in_order_insertion", 0)
                     if sel == 0 and not frozen and not (self.is_set and v != 0):
@@ -466,6 +507,8 @@ class Runner:
                             self.objs[(k, v)] = tr.get_element(kenc(k))  # the KV object made by __setitem__
                     elif sel == 1 and not tr.in_order:
                         old = tr.insert_element(e)  # the default of `in_order` (False)
+                    elif at % 2:
+                        old = tr.insert_element(e, in_order=tr.in_order)
                     else:
                         old = tr.insert_element(e, tr.in_order)
                     ref[k] = v
@@ -704,7 +747,7 @@ class Runner:
             if h >= len(T):
                 return "!"
             try:
-                c = self.new_tree(T[h], bool(io), via_copy=(sel != 0))
+                c = self.new_tree(T[h], bool(io), via_copy=(sel == 1), odd_t=(sel == 2 or (sel == 1 and bool(io))))
             except ValueError:
                 if T[h]._immutable:
                     self.fail("C19/clone/rejected-frozen", f"op {at} {tok}: clone of a frozen tree raised ValueError", at)
@@ -733,6 +776,8 @@ class Runner:
             else:
                 cu = T[h].cursor()
                 cu.__enter__()
+                if sel == 1:
+                    T[h].register_cursor(cu)  # registering twice is registering once
             self.curs.append([h, cu, RefCursor(), True])
             return str(len(self.curs) - 1)
         if op in ("s", "n", "p", "f", "l", "P", "x"):
@@ -761,6 +806,8 @@ class Runner:
             if op == "s":
                 if a[2] != 0 and sel == 1:
                     cu.seek(kenc(a[1]))  # the default of `before` (True)
+                elif sel == 2:
+                    cu.seek(kenc(a[1]), before=(a[2] != 0))
                 else:
                     cu.seek(kenc(a[1]), a[2] != 0)
                 rc.seek(a[1], a[2] != 0)
@@ -779,6 +826,10 @@ class Runner:
             if op == "x":
                 cu.__exit__(None, None, None)
                 self.curs[a[0]][3] = False
+                if sel != 0:
+                    T[h].deregister_cursor(cu)  # deregistering a cursor that is not registered is a no-op
+                if cu in T[h].cursors:
+                    self.fail("C19/cursor/still-registered", f"op {at} {tok}: the cursor is still registered after leaving its `with` block", at)
                 return "ok"
             keys = sorted(ref)
             e = cu.next() if op == "n" else cu.prev()
@@ -928,6 +979,16 @@ def eval_case(ctx: Ctx, case: dict, minimize=True):
                      {"kind": "search", "case": case})
         ctx.count("search_in_node")
         return
+    if case.get("kind") == "hostile":
+        fails, lost = run_hostile(case)
+        ctx.count("hostile.ops", len(case["ops"]))
+        ctx.count("hostile.aborted-delete-lost-successor", lost)
+        seen = set()
+        for sig, what, at in fails:
+            if sig not in seen:
+                seen.add(sig)
+                ctx.fail(sig, what, {"kind": "hostile", "case": dict(case, ops=case["ops"][: at + 1])})
+        return None
     r, out = run_impl(case)
     ctx.corr(op_line(case), out, case)
     if case["t"] >= 3:
@@ -1209,7 +1270,7 @@ def gen_history(rng, size_class=None):
             for x in range(g.ntrees):
                 if rng.chance(1, 2):
                     g.queries(x, universe)
-    return {"kind": "hist", "t": t, "io": io, "set": g.is_set, "ktype": rng.choice(KTYPES), "ops": g.ops}
+    return {"kind": "hist", "t": t, "io": io, "set": g.is_set, "ktype": rng.choice(KTYPES), "falsy_elts": rng.chance(1, 6), "ops": g.ops}
 
 
 def gen_absent_sweeps(rng):
@@ -1311,7 +1372,7 @@ def gen_cursor_reuse(rng):
     return {"kind": "hist", "t": t, "io": rng.below(2), "set": False, "ktype": rng.choice(KTYPES), "ops": ops}
 
 
-KTYPES = ["int", "int", "int", "str", "name"]
+KTYPES = ["int", "int", "int", "str", "name", "bytes", "tuple", "float"]
 
 
 def gen_cursor_mutation(rng):
@@ -1399,7 +1460,7 @@ def gen_cursor_mutation(rng):
         # else: no mutation between two cursor steps
         if rng.chance(1, 10):
             ops.append(rng.choice([f"T,{h}", f"K,{h}", f"L,{h}", f"P,{c}"]))
-    return {"kind": "hist", "t": t, "io": io, "set": is_set, "ktype": rng.choice(KTYPES), "ops": ops}
+    return {"kind": "hist", "t": t, "io": io, "set": is_set, "ktype": rng.choice(KTYPES), "falsy_elts": rng.chance(1, 6), "ops": ops}
 
 
 def gen_iter_mutation(rng):
@@ -1466,14 +1527,14 @@ def gen_iter_mutation(rng):
             its = [x for x in its if x[0] != c]
         if rng.chance(1, 10):
             ops.append(rng.choice(["T,0", "K,0", "L,0"]))
-    return {"kind": "hist", "t": t, "io": io, "set": is_set, "ktype": rng.choice(KTYPES), "itercur": True, "ops": ops}
+    return {"kind": "hist", "t": t, "io": io, "set": is_set, "ktype": rng.choice(KTYPES), "itercur": True, "falsy_elts": rng.chance(1, 6), "ops": ops}
 
 
 def gen_defaults(rng, is_set):
     """trees made with the constructors' default arguments (t = DEFAULT_T = 127, in_order = False): enough keys for the
     first root split at 2t-1 = 253 elements, then deletions back below it"""
     io = 1 if rng.chance(1, 3) else 0
-    n = rng.range(262, 300)
+    n = rng.range(262, 300) if is_set else rng.range(508, 540)  # 2 * 253 + 1 = 507: a second split below the root
     ops = []
     keys = list(range(0, 2 * n, 2))
     for i, k in enumerate(key_order(rng, keys, rng.choice(["asc", "nearasc", "rand", "desc"]))):
@@ -1483,6 +1544,301 @@ def gen_defaults(rng, is_set):
         ops.append(f"D,0,{k}")
     ops += ["K,0", "F,0", "C,0,0", f"I,1,{2 * n + 1},{0 if is_set else 900000}", f"D,1,{keys[0]}", "L,0", "L,1"]
     return {"kind": "hist", "t": 127, "io": io, "set": is_set, "defaults": True, "ops": ops}
+
+
+# ------------------------------------------------------------------------------------------------
+# oracle-only stream: exceptions raised in the middle of an operation, aliasing, equality relations
+# ------------------------------------------------------------------------------------------------
+class Boom(BaseException):
+    """not an Exception: what KeyboardInterrupt / a custom BaseException from a key's comparison looks like"""
+
+
+class BoomV(ValueError):
+    pass
+
+
+class BoomK(KeyError):
+    pass
+
+
+BOOMS = {"B": Boom, "V": BoomV, "K": BoomK}
+SETOP_SIG = "C19/api/set-operator:TypeError/_from_iterable"
+
+
+class HK(int):
+    """an int key whose comparisons raise once `fuse` of them have been made (while armed)"""
+
+    def __new__(cls, v, fuse, exc):
+        o = int.__new__(cls, v)
+        o.fuse, o.exc, o.armed = fuse, exc, True
+        return o
+
+    def _tick(self):
+        if self.armed:
+            if self.fuse <= 0:
+                raise self.exc("comparison")
+            self.fuse -= 1
+
+    def __eq__(self, o):
+        self._tick()
+        return int(self) == int(o)
+
+    def __ne__(self, o):
+        self._tick()
+        return int(self) != int(o)
+
+    def __lt__(self, o):
+        self._tick()
+        return int(self) < int(o)
+
+    def __gt__(self, o):
+        self._tick()
+        return int(self) > int(o)
+
+    def __le__(self, o):
+        self._tick()
+        return int(self) <= int(o)
+
+    def __ge__(self, o):
+        self._tick()
+        return int(self) >= int(o)
+
+    __hash__ = int.__hash__
+
+
+def run_hostile(case):
+    """Runs a history of the oracle-only stream on the implementation.  Returns [(signature, what, op index)].
+    After an operation that was aborted by an exception out of a key comparison: every *other* tree is unchanged (a clone
+    stays isolated whatever happens), the tree itself is still a B-tree (occupancy, depth, order, root condition); after
+    an aborted insertion also contents and size are those of before.  (An aborted deletion of a key held in an internal
+    node may have removed the successor already — counted, not judged; the history stops there.)"""
+    global _KT
+    _KT = "int"
+    fails = []
+    is_set = case["set"]
+    cls = btree.BTreeSet if is_set else btree.BTreeDict
+    T = [cls(t=case["t"], in_order=bool(case["io"]))]
+    refs = [dict()]
+    lines = [tree_line(T[0])]
+    cur = None
+    rc = RefCursor()
+    lost = 0
+
+    def fail(sig, what, at):
+        if len(fails) < 10:
+            fails.append((sig, what, at))
+
+    def check(h, at, tok, content=True):
+        nonlocal lines
+        new = [tree_line(t) for t in T]
+        for j, ln in enumerate(new):
+            if j != h and j < len(lines) and ln != lines[j]:
+                fail("C19/clone/isolation", f"op {at} {tok}: tree {j} changed by an operation on tree {h}", at)
+        lines = new
+        bad, keys = check_invariants(T[h])
+        for clause, detail in bad:
+            if clause == "size" and not content:
+                continue
+            fail(f"C19/invariant/{clause}", f"op {at} {tok} on tree {h}: {detail}", at)
+        if content and keys != sorted(refs[h]):
+            fail("C19/content/keys", f"op {at} {tok} on tree {h}: keys {keys} != reference {sorted(refs[h])}", at)
+        return keys
+
+    old = signal.signal(signal.SIGALRM, _alarm)
+    signal.alarm(20)
+    try:
+        for at, tok in enumerate(case["ops"]):
+            f = tok.split(",")
+            op = f[0]
+            h = int(f[1]) if len(f) > 1 else 0
+            if h >= len(T):
+                continue
+            tr, ref = T[h], refs[h]
+            try:
+                if op in ("i", "d"):
+                    k = int(f[2])
+                    if op == "i":
+                        e = btree.Member(k) if is_set else btree.KV(k, at)
+                        tr.insert_element(e, tr.in_order)
+                        ref[k] = at
+                    else:
+                        tr.delete_key(k)
+                        ref.pop(k, None)
+                    check(h, at, tok)
+                elif op in ("I", "D"):
+                    k, fuse, exc = int(f[2]), int(f[3]), BOOMS[f[4]]
+                    hk = HK(k, fuse, exc)
+                    raised = False
+                    try:
+                        if op == "I":
+                            tr.insert_element(btree.Member(hk) if is_set else btree.KV(hk, at), tr.in_order)
+                        else:
+                            tr.delete_key(hk)
+                    except exc:
+                        raised = True
+                    finally:
+                        hk.armed = False
+                    if not raised:
+                        if op == "I":
+                            ref[k] = at
+                        else:
+                            ref.pop(k, None)
+                        check(h, at, tok)
+                    elif op == "I":
+                        check(h, at, tok)
+                        if len(tr) != len(ref):
+                            fail("C19/len/value", f"op {at} {tok}: len {len(tr)} after an aborted insertion, reference {len(ref)}", at)
+                    else:
+                        keys = check(h, at, tok, content=False)
+                        if keys != sorted(ref) or len(tr) != len(keys):
+                            lost += 1  # successor removed, key not yet replaced: outside the property
+                            break
+                elif op == "F":
+                    tr.make_immutable()
+                    tr.make_immutable()
+                    lines[h] = tree_line(tr)
+                elif op == "C":
+                    if tr._immutable and len(T) < 4:
+                        T.append(copy.copy(tr))
+                        refs.append(dict(ref))
+                        lines.append(tree_line(T[-1]))
+                elif op == "c":
+                    if cur is not None:
+                        cur.__exit__(None, None, None)
+                    cur = T[0].cursor()
+                    cur.__enter__()
+                    rc = RefCursor()
+                elif op == "n" and cur is not None:
+                    e = cur.next()
+                    ek = rc.next(sorted(refs[0]))
+                    if (None if e is None else e.key()) != ek:
+                        fail("C19/cursor/next", f"op {at} {tok}: cursor returned {None if e is None else e.key()}, reference {ek}", at)
+                elif op == "U":  # aliasing: the tree combined with itself, contents unchanged
+                    if tr._immutable:
+                        continue
+                    if is_set:
+                        if int(f[2]) % 2:
+                            tr |= tr
+                        else:
+                            try:
+                                tr &= tr  # MutableSet.__iand__ computes `self - it`, i.e. a new set through _from_iterable
+                            except TypeError as e:
+                                fail(SETOP_SIG, f"op {at} {tok}: `s &= s` raised TypeError: {e}", at)
+                    else:
+                        tr.update(tr)
+                    check(h, at, tok)
+                elif op == "Y":  # aliasing: the tree emptied through itself
+                    if tr._immutable:
+                        continue
+                    if is_set:
+                        m = int(f[2]) % 3
+                        if m == 0:
+                            tr ^= tr
+                        elif m == 1:
+                            tr -= tr
+                        else:
+                            tr.clear()
+                    else:
+                        tr.clear()
+                    ref.clear()
+                    check(h, at, tok)
+                    if tr.cursors and cur is None:
+                        fail("C19/iteration/cursor-leaked", f"op {at} {tok}: {len(tr.cursors)} cursors left registered", at)
+                elif op == "E":  # equality-like relations across object routes
+                    plain = set(ref) if is_set else {k: tr.get_element(k).value() for k in ref}
+                    rel = {
+                        "== plain": tr == plain, "plain ==": plain == tr, "not !=": not (tr != plain), "== self": tr == tr,
+                        "len": len(tr) == len(plain), "in": all(k in tr for k in ref) and (max(ref, default=0) + 1) not in tr,
+                    }
+                    if is_set:
+                        rel.update({"<= self": tr <= tr, ">= self": tr >= tr, "not < self": not (tr < tr), "<= plain": tr <= plain,
+                                    "plain <=": plain <= tr, "isdisjoint": tr.isdisjoint(plain) == (not plain)})
+                        bigger = plain | {max(ref, default=0) + 7}
+                        probe = {min(ref, default=0), max(ref, default=0) + 7}
+                        for name, fn, exp in (("&", lambda: tr & probe, plain & probe), ("|", lambda: tr | probe, plain | probe),
+                                              ("-", lambda: tr - probe, plain - probe), ("^", lambda: tr ^ probe, plain ^ probe),
+                                              ("r-", lambda: probe - tr, probe - plain)):
+                            try:
+                                got = fn()
+                                if set(got) != exp or len(got) != len(exp):
+                                    fail("C19/api/set-operator/value", f"op {at} {tok}: `{name}` gives {sorted(got)}, expected {sorted(exp)}", at)
+                            except TypeError as e:
+                                # the Set mixin builds its result with cls._from_iterable(it) = cls(it); BTreeSet's constructor
+                                # takes no iterable
+                                fail(SETOP_SIG, f"op {at} {tok}: binary set operator `{name}` on a BTreeSet raised TypeError: {e}", at)
+                        rel.update({"!= bigger": tr != bigger, "< bigger": tr < bigger, "not >= bigger": not (tr >= bigger)})
+                    else:
+                        other = dict(plain)
+                        other[max(ref, default=0) + 7] = 1
+                        rel.update({"!= bigger": tr != other, "bigger !=": other != tr})
+                    for j, o in enumerate(T):
+                        if j != h and type(o) is type(tr):
+                            same = (sorted(refs[j]) == sorted(ref)) if is_set else (
+                                {k: o.get_element(k).value() for k in refs[j]} == plain)
+                            rel[f"== tree {j}"] = (tr == o) == same and (o == tr) == same and (tr != o) == (not same)
+                    for name, okv in rel.items():
+                        if not okv:
+                            fail("C19/api/equality", f"op {at} {tok}: relation `{name}` fails on tree {h} with keys {sorted(ref)[:20]}", at)
+            except Hang:
+                fail("C19/hang", f"op {at} {tok}: no termination", at)
+                break
+            except btree.Immutable:
+                if not tr._immutable:
+                    fail("C19/frozen/spurious", f"op {at} {tok}: Immutable on a mutable tree", at)
+                check(h, at, tok)
+            except (KeyboardInterrupt, SystemExit):
+                raise
+            except BaseException as e:
+                fail(f"C19/{op}/exception:{type(e).__name__}", f"op {at} {tok}: {type(e).__name__}: {e}", at)
+                break
+    finally:
+        signal.alarm(0)
+        signal.signal(signal.SIGALRM, old)
+    return fails, lost
+
+
+def gen_hostile(rng):
+    t = rng.choice([3, 3, 4])
+    is_set = rng.chance(1, 2)
+    n = rng.choice([5, 9, 17, 26, 40, 60])
+    ops = []
+    keys = [2 * i for i in range(n)]
+    for k in key_order(rng, keys, rng.choice(["asc", "asc", "rand", "desc"])):  # ascending without in_order: minimal nodes
+        ops.append(f"i,0,{k}")
+    ntrees, frozen = 1, [False]
+    if rng.chance(1, 2):
+        ops.append("c")
+    for _ in range(rng.range(6, 40)):
+        muts = [h for h in range(ntrees) if not frozen[h]]
+        m = rng.below(20)
+        h = rng.choice(muts) if muts else 0
+        exc = rng.choice("BBVK")
+        if m < 6:
+            ops.append(f"D,{h},{rng.choice(keys) + rng.below(2)},{rng.below(14)},{exc}")
+        elif m < 10:
+            ops.append(f"I,{h},{rng.below(2 * n + 2)},{rng.below(12)},{exc}")
+        elif m < 12:
+            ops.append(f"d,{h},{rng.choice(keys)}")
+        elif m < 14:
+            ops.append(f"i,{h},{rng.below(2 * n + 2)}")
+        elif m < 15 and ntrees < 4:
+            fz = rng.below(ntrees)
+            ops += [f"F,{fz}", f"C,{fz}"]
+            frozen[fz] = True
+            frozen.append(False)
+            ntrees += 1
+        elif m < 16:
+            ops.append(f"U,{h},{rng.below(4)}")
+        elif m < 17 and rng.chance(1, 3):
+            ops.append(f"Y,{h},{rng.below(6)}")
+            for k in rng.shuffle(keys)[: rng.range(3, max(4, n // 2))]:
+                ops.append(f"i,{h},{k}")
+        elif m < 19:
+            ops.append(f"E,{rng.below(ntrees)}")
+        else:
+            ops.append("n")
+    ops.append(f"E,{rng.below(ntrees)}")
+    return {"kind": "hostile", "t": t, "io": rng.below(2), "set": is_set, "ops": ops}
 
 
 def gen_malformed(rng):
@@ -1555,6 +1911,11 @@ def generate(ctx: Ctx, scale: float, rng):
         r = eval_case(ctx, case)
         ctx.count("default-ctor")
         ctx.case(("defaults", case["io"], case["set"], tuple(case["ops"])), nontrivial=True, sample=_sample(case))
+    for i in range(max(1, int(150 * scale))):
+        case = gen_hostile(rng)
+        eval_case(ctx, case)
+        ctx.count("hostile")
+        ctx.case(("hostile", case["t"], case["io"], case["set"], tuple(case["ops"])), nontrivial=True, sample=_sample(case))
     for i in range(max(1, int(40 * scale))):
         case = gen_absent_sweeps(rng)
         r = eval_case(ctx, case)
